@@ -9,6 +9,7 @@ R-C16.2  every caller of `try_coerce_to` is interpreted on unification {succeeds
          no attempt after a successful unification; exactly one attempt, with (actual, expected, node), after a failed one; its
          result is what is returned, else a Guppy type error is raised (c16_callers.py; guard-shape rule only as fallback).
 R-C16.3  the three widening conversion methods exist on the std numeric types.
+R-C16.5  no type annotation is written onto a node before `check_type_against` accepted it (c16_stale.py).
 Not decided: converted values.
 """
 
@@ -148,6 +149,8 @@ def run(ctx: Ctx) -> None:
                   "wrong conversion method is used")
 
     # ------------------------------------------------------------ R-C16.2 who may call
+    from . import c16_stale
+    c16_stale.run(ctx)
     from . import c16_callers
     if not c16_callers.run(ctx):
         # fallback (a caller could not be interpreted): the call is lexically guarded by `<unify result> is None`
